@@ -197,12 +197,12 @@ class Ctx:
         self.replay = replay
         self.rng = random.Random(self.seed)
         self.t0 = time.time()
-        self.bdir = os.path.join(VERIF, 'build', pid)
+        self.bdir = os.path.join(VERIF, 'build', pid + os.environ.get('VERIF_BUILD_TAG', ''))
         shutil.rmtree(self.bdir, ignore_errors=True)
         os.makedirs(os.path.join(self.bdir, 'gen'))
         os.makedirs(os.path.join(self.bdir, 'dyn'))
         os.makedirs(os.path.join(self.bdir, 'chk'))
-        self.rdir = os.path.join(VERIF, 'replays', pid)
+        self.rdir = os.path.join(os.environ.get('VERIF_REPLAY_DIR', os.path.join(VERIF, 'replays')), pid)
         os.makedirs(self.rdir, exist_ok=True)
         self.known = Known(os.path.join(VERIF, 'known_findings.txt'))
         self.obligations = []      # dicts: name, kind, ok
@@ -546,10 +546,11 @@ class Ctx:
               'coverage': cov, 'assumptions': self.assumptions, 'wall_s': round(wall, 2),
               'violations': nviol}
         if not self.replay:
-            os.makedirs(os.path.join(VERIF, 'evidence'), exist_ok=True)
-            tmp = os.path.join(VERIF, 'evidence', f'.{self.pid}.tmp')
+            edir = os.environ.get('VERIF_EVIDENCE_DIR', os.path.join(VERIF, 'evidence'))
+            os.makedirs(edir, exist_ok=True)
+            tmp = os.path.join(edir, f'.{self.pid}.tmp')
             json.dump(ev, open(tmp, 'w'), indent=1, default=str)
-            os.replace(tmp, os.path.join(VERIF, 'evidence', f'{self.pid}.json'))
+            os.replace(tmp, os.path.join(edir, f'{self.pid}.json'))
         for l in lines:
             print(l, flush=True)
         self.log(f'done: obligations {ndis}/{nob}, evaluations {cov["evaluations"]}, '
